@@ -89,6 +89,15 @@ Fixpoint tr_state (M : transducer) (q : nat) (xs : list T) : nat :=
   | x :: r => if t_fin M q then q else tr_state M (fst (t_react M q x)) r
   end.
 
+(* the stage receives an element only while its loop has not ended: [tr_live M q xs] says that the whole of xs can be
+   consumed from counter q (no element is taken after t_fin) - TaskN n takes at most n elements, TaskWhile none
+   after its match *)
+Fixpoint tr_live (M : transducer) (q : nat) (xs : list T) : bool :=
+  match xs with
+  | [] => true
+  | x :: r => negb (t_fin M q) && tr_live M (fst (t_react M q x)) r
+  end.
+
 (* the list functions the property names *)
 Fixpoint find_first (p : T -> bool) (xs : list T) : list T :=
   match xs with [] => [] | x :: r => if p x then [x] else find_first p r end.
